@@ -1,9 +1,11 @@
 package c07
 
 import (
+	"bytes"
 	"crypto/tls"
 	"encoding/json"
 	"fmt"
+	"net"
 	"time"
 
 	"github.com/caddyserver/caddy/v2"
@@ -59,7 +61,15 @@ func runNested(c *fw.Ctx) {
 		outer := outerNames[r.Intn(len(outerNames))]
 		var inner []byte
 		innerName, wantSpan := "", "inner-plain"
-		switch r.Intn(3) {
+		sameSize := false
+		switch r.Intn(4) {
+		case 3: // the outer hello itself with another server name of the same length: same record header, other contents
+			sameSize = true
+			innerName = innerNames[r.Intn(2)]
+			wantSpan = "inner-tls"
+			if innerName == "inner-x.c07.test" {
+				wantSpan = "inner-x"
+			}
 		case 0: // no TLS inside
 			inner = append([]byte("GET / HTTP/1.1\r\nHost: plain\r\n\r\n"), oracle.Stream(0xC07, uint64(i), 50+r.Intn(300))...)
 		default:
@@ -78,13 +88,23 @@ func runNested(c *fw.Ctx) {
 		if r.Intn(2) == 0 {
 			tcfg.MaxVersion = tls.VersionTLS12
 		}
-		tc := tls.Client(client, tcfg)
+		first := &firstWrite{Conn: client}
+		tc := tls.Client(first, tcfg)
 		_ = client.SetDeadline(time.Now().Add(20 * time.Second))
 		if err := tc.Handshake(); err != nil {
 			c.Inconclusive("nested: outer handshake failed")
 			_ = client.Close()
 			hmods.Untrack(id)
 			continue
+		}
+		if sameSize {
+			if !bytes.Contains(first.b, []byte(outer)) || len(innerName) != len(outer) {
+				c.Inconclusive("nested: outer hello not captured")
+				_ = client.Close()
+				hmods.Untrack(id)
+				continue
+			}
+			inner = append(bytes.Replace(first.b, []byte(outer), []byte(innerName), 1), oracle.Stream(0xC07, uint64(i), r.Intn(100))...)
 		}
 		_, _ = tc.Write(inner)
 		_ = tc.CloseWrite()
@@ -102,7 +122,7 @@ func runNested(c *fw.Ctx) {
 		}
 		got := rec.Stream("sink")
 		hmods.Untrack(id)
-		w := map[string]any{"outer": outer, "inner_server_name": innerName, "inner_is_tls": innerName != "", "want_route": wantSpan, "got_route": gotSpan, "placeholder": gotName}
+		w := map[string]any{"outer": outer, "inner_is_the_outer_hello_renamed": sameSize, "inner_server_name": innerName, "inner_is_tls": innerName != "", "want_route": wantSpan, "got_route": gotSpan, "placeholder": gotName}
 		switch {
 		case gotSpan != wantSpan:
 			c.Violation(fmt.Sprintf("C07 nested: inner tls matcher decided from something else than the inner bytes [want %s, got %s]", wantSpan, orNone(gotSpan)),
@@ -114,8 +134,21 @@ func runNested(c *fw.Ctx) {
 			c.Violation("C07 nested: inner stream altered", "the handler behind the inner tls matcher did not read the bytes sent inside the tunnel: "+oracle.Diff(got, inner), w)
 		}
 		c.Obs("nested_sessions", 1)
-		c.Case(fw.Hash("nested", outer, innerName, tcfg.MaxVersion), true, func() any { return w })
+		c.Case(fw.Hash("nested", outer, innerName, sameSize, tcfg.MaxVersion), true, func() any { return w })
 	}
+}
+
+// firstWrite remembers the first Write that goes through it (the client's hello record).
+type firstWrite struct {
+	net.Conn
+	b []byte
+}
+
+func (f *firstWrite) Write(p []byte) (int, error) {
+	if f.b == nil {
+		f.b = append([]byte{}, p...)
+	}
+	return f.Conn.Write(p)
 }
 
 func orNone(s string) string {
